@@ -286,6 +286,7 @@ async fn run_case(buf: usize, pool: bool, tls: bool, alpn_srv: &str, sig: Option
     let (sig_tx, sig_rx) = tokio::sync::watch::channel(false);
     let mut clients = vec![];
     let mut servers = vec![];
+    let mut held = vec![];
     for me in 0..NSERVERS {
         let (client, incoming) = duplex::pair();
         clients.push(client);
@@ -299,7 +300,16 @@ async fn run_case(buf: usize, pool: bool, tls: bool, alpn_srv: &str, sig: Option
         let srv = Server::builder().with_acceptor(acceptor).with_make_service(make).with_auto_http().with_tokio();
         if sig.is_some() {
             let mut rx = sig_rx.clone();
-            servers.push(tokio::spawn(srv.with_graceful_shutdown(async move { let _ = rx.wait_for(|v| *v).await; })));
+            // the completed future is kept alive until the end of the scenario: nothing may depend on it being dropped
+            let (res_tx, res_rx) = tokio::sync::oneshot::channel();
+            let fut = srv.with_graceful_shutdown(async move { let _ = rx.wait_for(|v| *v).await; });
+            held.push(tokio::spawn(async move {
+                let mut fut: Pin<Box<dyn Future<Output = Result<(), hyperdriver::server::ServerError>> + Send>> = Box::pin(fut);
+                let r = (&mut fut).await;
+                let _ = res_tx.send(r.is_ok());
+                std::future::pending::<()>().await;
+            }));
+            servers.push(tokio::spawn(async move { match res_rx.await { Ok(true) => Ok(()), _ => Err(hyperdriver::server::ServerError::Io(std::io::Error::other("serving future failed"))) } }));
         } else {
             servers.push(tokio::spawn(std::future::IntoFuture::into_future(srv)));
         }
@@ -325,6 +335,7 @@ async fn run_case(buf: usize, pool: bool, tls: bool, alpn_srv: &str, sig: Option
     for sv in servers {
         if sig.is_some() && sv.is_finished() { if let Ok(Ok(())) = sv.await { srv_ok += 1; } } else { sv.abort(); }
     }
+    for h in held { h.abort(); }
     let l = log.lock().unwrap();
     let mut out = outs.iter().map(|(id, o)| {
         let (n, f) = l.calls.get(id).cloned().unwrap_or((0, "-".into()));
